@@ -176,6 +176,14 @@ def std_cases(tier, seed, caps=None, cross_all=False):
     cases += rc
     cc = gens.class_crossing_cases(rnd, caps)
     cases += cc if (tier == "thorough" or cross_all) else rnd.sample(cc, 120)
+    # short payloads with one odd character at either end; multi-segment streams at capacity -2..+3 bits
+    aw = gens.awkward_short_cases(rnd)
+    cases += aw if tier == "thorough" else rnd.sample(aw, 70)
+    ms = gens.multi_segment_boundary_items(rnd, caps, pairs if tier == "thorough" else rnd.sample(pairs, 8), prefixes=(3, 7, 11, 2))
+    ms = ms if len(ms) <= (600 if tier == "thorough" else 60) else rnd.sample(ms, 600 if tier == "thorough" else 60)
+    for (v, l, segs, d) in ms:
+        for (ver, fit) in ((None, True), (v, False)) if d <= 0 or rnd.random() < 0.5 else ((None, True),):
+            cases.append(dict(version=ver, level=l, mask=rnd.randrange(8), fit=fit, calls=[(dd, 0) for _, dd in segs], tag=f"multi-boundary{d:+d}"))
     # fixed corner cases (corpus of past findings)
     cases += [
         dict(version=None, level=2, mask=None, fit=True, calls=[(b"\0" * 24, 0)], tag="corpus-D1"),
